@@ -73,13 +73,23 @@ Print Assumptions C18_routing_total_for_every_class_refuted.
 (** ** (b) integer expressions *)
 
 (** For every expression of Python integer arithmetic (literals, names, unary - + ~, binary
-    + - * // % ** /, any nesting): [python_evaluate] gives a value or NotAnIntegerException, and the
-    instruction's validation step passes or is a VALIDATION_ERROR - never INTERNAL_ERROR. *)
+    + - * // % ** /, any nesting; texts outside this syntax enter as oracle leaves = what Python's
+    eval does with them) whose oracle leaves raise only subclasses of Exception:
+    [python_evaluate] gives a value or NotAnIntegerException, and the instruction's validation step
+    passes or is a VALIDATION_ERROR - never INTERNAL_ERROR. *)
 Theorem C18_integer_never_internal : forall e : iexpr,
+  (forall c, In c (oracle_excs e) -> subclass c EException = true) ->
   ((exists z, python_evaluate true e = CValue z) \/ python_evaluate true e = CNotInt) /\
   (integer_validation true e = SOk \/ integer_validation true e = SFail FValidation).
-Proof. intros e. split; [apply integer_never_escapes | apply integer_validation_never_internal]. Qed.
+Proof. intros e H. split; [apply integer_never_escapes | apply integer_validation_never_internal]; exact H. Qed.
 Print Assumptions C18_integer_never_internal.
+
+(** Without that premise it is false: an expression that raises SystemExit ([exit()]) escapes
+    python_evaluate and every handler above it (KF-C18-3). *)
+Theorem C18_integer_never_internal_for_every_exception_refuted :
+  exists e : iexpr, python_evaluate true e = CEscapes ESystemExit /\ integer_validation true e = SUncaught ESystemExit.
+Proof. exists (IOracle (RExc ESystemExit)). exact system_exit_escapes. Qed.
+Print Assumptions C18_integer_never_internal_for_every_exception_refuted.
 
 (** The catch set before commit 58541f0 (FIX-C18-1): [1//0] and [1%0] ended in INTERNAL_ERROR. *)
 Theorem C18_prefix_integer_never_internal_refuted :
@@ -140,7 +150,8 @@ Print Assumptions C18_template_group_reference.
 Theorem C18_text_errors_never_internal_partial :
   (forall (m : tc_status) (e : exc), wf_exc e = true -> subclass (e_cls e) EException = true ->
      route m SInstrParse e = Ret (RAccess ACC_SYNTAX_ERROR)) /\
-  (forall e : iexpr, integer_validation true e = SOk \/ integer_validation true e = SFail FValidation) /\
+  (forall e : iexpr, (forall c, In c (oracle_excs e) -> subclass c EException = true) ->
+     integer_validation true e = SOk \/ integer_validation true e = SFail FValidation) /\
   (forall ng names ident t, parse_template ng names ident t <> TOracleMiss ->
      replace_step true ng names ident t = SOk \/ replace_step true ng names ident t = SFail FHard).
 Proof.
